@@ -5,6 +5,12 @@ From ZV.Conc Require Import PoolModel.
 
 Ltac Zify.zify_post_hook ::= Z.div_mod_to_equations.
 
+(* ---------- POOL_resize: threads created before pthread_create fails ---------- *)
+Lemma created_le w d : created w d <= d.
+Proof. unfold created. destruct w; [lia|apply Nat.le_min_r]. Qed.
+Lemma created_0 d : created 0 d = d.
+Proof. reflexivity. Qed.
+
 (* ---------- upd ---------- *)
 Lemma upd_length {A} i (x : A) l : length (upd i x l) = length l.
 Proof. revert i; induction l; destruct i; cbn; auto. Qed.
